@@ -1230,15 +1230,39 @@ def run_C17(ctx):
             if pre is not None:
                 path.write_bytes(pre)
             arg = str(path) if rng.random() < 0.5 else path
-            via_with = rng.random() < 0.3
+            via_with = rng.random() < 0.4
             exc = None
+            abort = None                         # the with block is left through an exception after `abort` records
+            if via_with and rng.random() < 0.5:
+                abort = rng.randint(0, len(recs))
+                recs = recs[:abort]
+                res.dist["with-block left by exception"] += 1
             try:
                 if via_with:
                     wl2 = type(wl)(arg, max_volume=950)
                     wl2.append("stale")          # entering the with block must start from an empty worklist
-                    with wl2:
-                        for r in recs:
-                            wl2.append(r)
+                    how = rng.choice(["op", "raise"])
+                    body_exc = []
+                    propagated = False
+                    try:
+                        with wl2:
+                            for r in recs:
+                                wl2.append(r)
+                            if abort is not None:
+                                try:
+                                    if how == "op":
+                                        wl2.comment("a;b")   # a worklist operation that raises ValueError
+                                    raise RuntimeError("abort")
+                                except Exception as be:  # noqa: BLE001
+                                    body_exc.append(be)
+                                    raise
+                    except Exception as e:  # noqa: BLE001
+                        if body_exc and e is body_exc[0]:
+                            propagated = True    # the body's exception left the block, as it must
+                        else:
+                            raise                # raised by __exit__/save (e.g. file name refused)
+                    if abort is not None and not propagated:
+                        raise AssertionError("verif: the with block swallowed the exception raised in its body")
                 else:
                     wl.save(arg)
                     if rng.random() < 0.3:
@@ -1251,18 +1275,18 @@ def run_C17(ctx):
             want_ok = P(fname).suffix.lower() == ".gwl"
             msg = None
             if accepted != want_ok:
-                msg = f"file name {fname!r}: accepted={accepted}, a .gwl extension is {'present' if want_ok else 'absent'}"
+                msg = f"file name {fname!r}: accepted={accepted} ({type(exc).__name__ if exc else None}: {str(exc)[:80] if exc else ''}), a .gwl extension is {'present' if want_ok else 'absent'}"
             elif accepted:
                 want = "\r\n".join(recs).encode("latin_1")
                 if data != want:
                     msg = f"file content differs from the CRLF-joined Latin-1 records ({len(data or b'')} vs {len(want)} bytes; previous content {len(pre) if pre is not None else None} bytes)"
                 elif recs and data.decode("latin_1").split("\r\n") != recs:
                     msg = "reading back does not return the records"
-                elif str(wl) != "\n".join(recs):
+                elif str(wl2 if via_with else wl) != "\n".join(recs):
                     msg = "str(worklist) does not show the records"
             ans = "ok " + ",".join(str(b) for b in data) if (accepted and data is not None) else "err:reject"
             cases.append({"line": "save " + (",".join(proto.e_str(r) for r in recs) or "_"), "impl": ans if accepted else None,
-                          "case": {"kind": "fn", "fn": "save", "records": recs, "file": fname, "preexisting": None if pre is None else len(pre), "with": via_with},
+                          "case": {"kind": "fn", "fn": "save", "records": recs, "file": fname, "preexisting": None if pre is None else len(pre), "with": via_with, "left_by_exception_after": abort},
                           "oracle": msg, "sig": "C17:save", "name": fname, "accepted": accepted, "nontrivial": len(recs) > 0})
         sfx = [{"line": "gwl_suffix " + proto.e_str(c["name"]), "impl": "ok 1" if c["accepted"] else "ok 0",
                 "case": {"kind": "fn", "fn": "gwl_suffix", "file": c["name"]}, "oracle": None} for c in cases]
@@ -1329,7 +1353,7 @@ def gen_ctor_spec(rng):
         elif fault == "init_nan":
             spec["init"] = ("V", ["nan"] + [F(0)] * (n - 1)); spec["names"] = {}
         elif fault == "init_len":
-            spec["init"] = ("V", [F(1)] * (n + rng.choice([-1, 1, 2]) or 1)) if n + 1 else None; spec["names"] = {}
+            spec["init"] = ("V", [F(1)] * (rng.choice([n - 1, n + 1, n + 2, 1, 2 * n, 0]))); spec["names"] = {}
             if len(spec["init"][1]) == n:
                 spec["init"] = ("V", [F(1)] * (n + 1))
         elif fault == "names_empty":
@@ -1371,9 +1395,14 @@ def gen_ctor_spec(rng):
     elif fault == "init_nan":
         spec["init"] = ("V", ["nan"] + [F(1)] * (cols - 1)); spec["col_names"] = None
     elif fault == "init_len":
-        spec["init"] = ("V", [F(1)] * (cols + 1)); spec["col_names"] = None
+        # wrong per-column length: longer, shorter, a single element (must not be broadcast), doubled, empty
+        k = rng.choice([cols + 1, cols - 1, 1, 2 * cols, 0])
+        spec["init"] = ("V", [F(1)] * (k if k != cols else cols + 1)); spec["col_names"] = None
     elif fault == "colnames_len":
-        spec["col_names"] = ("V", ["a"] * (cols + 1))
+        k = rng.choice([cols + 1, cols - 1, 1, 2 * cols])
+        spec["col_names"] = ("V", ["a"] * (k if k != cols else cols + 1))
+        if spec["init"][0] == "S" and spec["init"][1] == 0 or spec["init"][0] == "V" and any(v == 0 for v in spec["init"][1]):
+            spec["init"] = ("S", mx)
     elif fault == "colnames_empty":
         z = [c for c in range(cols) if flat[c] == 0]
         if z:
@@ -1516,9 +1545,14 @@ def gen_record_program(rng):
                   "direction": rng.choice(["left_to_right", "right_to_left"]), "src_rack_id": T(10), "src_rack_type": T(10),
                   "dst_rack_id": T(10), "dst_rack_type": T(10)}
             if fault:
-                f = rng.choice(["dir", "excl", "lc", "label", "vol_neg", "vol_max", "pos", "pos_bad", "rid"])
+                f = rng.choice(["dir", "excl", "excl_nonint", "lc", "label", "vol_neg", "vol_max", "pos", "pos_bad", "rid"])
                 if f == "dir": op["direction"] = rng.choice(["up", "", "LEFT_TO_RIGHT"])
-                elif f == "excl": op["exclude"] = [de + 1]
+                elif f == "excl": op["exclude"] = excl + [rng.choice([de + 1, ds - 1, de + 50])]
+                elif f == "excl_nonint":
+                    # a non-integral number strictly inside the destination range is not a well of the range
+                    op["exclude"] = excl + [proto.Bad(rng.choice([ds + 0.5, (ds + de) / 2 + 0.25, de - 0.5 if de > ds else ds + 0.5]))]
+                    if rng.random() < 0.5:
+                        rng.shuffle(op["exclude"])
                 elif f == "lc": op["liquid_class"] = "a;b"
                 elif f == "label": op[rng.choice(["src_label", "dst_label"])] = rng.choice(["x" * 33, "a;b"])
                 elif f == "vol_neg": op["vol"] = -F(1)
@@ -1580,7 +1614,7 @@ class RecordOracle(O.Oracle):
             for n in ("src_start", "src_end", "dst_start", "dst_end"):
                 if not isinstance(op[n], int) or op[n] < 0:
                     return False
-            if any(e < op["dst_start"] or e > op["dst_end"] for e in op.get("exclude", [])):
+            if any(isinstance(e, proto.Bad) or e < op["dst_start"] or e > op["dst_end"] for e in op.get("exclude", [])):
                 return False
             v = F(op["vol"])
             if v < 0 or v > F(cfg["max_volume"]):
